@@ -17,6 +17,7 @@ struct MsgpackB {
     template <class O> static ojson decode_stream(std::istream& is, const O& o) { return msgpack::decode_msgpack<ojson>(is, o); }
     static void encode(const ojson& j, std::vector<uint8_t>& out, uint64_t) { msgpack::encode_msgpack(j, out); }
     static void encode_stream(const ojson& j, std::ostream& os, uint64_t) { msgpack::encode_msgpack(j, os); }
+    static Outcome encoder_nest(int ckind, size_t depth, int limit) { auto opt = msgpack::msgpack_options{}.max_nesting_depth(limit); return encoder_nest_impl<msgpack::msgpack_bytes_encoder, std::vector<uint8_t>, msgpack::msgpack_options>(ckind, depth, opt, false); }
     static const char* const* seed_hex() {
         static const char* const s[] = {
             "c0", "c2", "c3", "00", "7f", "ff", "e0", "cc80", "cdffff", "ceffffffff", "cfffffffffffffffff", "d080", "d18000", "d280000000", "d38000000000000000", "d37fffffffffffffff", "cf8000000000000000",
